@@ -54,11 +54,12 @@ func canonVal(v any) string {
 	case nil:
 		return "nil"
 	case wamp.Dict:
-		return "Dict" + strconv.Itoa(len(x))
+		_ = x
+		return "Dict"
 	case wamp.List:
-		return "List" + strconv.Itoa(len(x))
+		return "List"
 	case []any:
-		return "SliceAny" + strconv.Itoa(len(x))
+		return "SliceAny"
 	case map[string]any:
 		return "MapAny"
 	}
